@@ -234,7 +234,7 @@ func c12spawn(p *core.Prog, sp *ssa.Function) (bool, string) {
 	var child *ssa.Call
 	core.Instrs(sp, func(ins ssa.Instruction) {
 		if call, ok := ins.(*ssa.Call); ok {
-			if g := core.Callee(&call.Call); g != nil && p.InRepo(g) && core.TypeName(g.Signature.Results().At(0).Type()) == "ActorDef" {
+			if g := core.Callee(&call.Call); g != nil && p.InRepo(g) && g.Signature.Results().Len() > 0 && core.TypeName(g.Signature.Results().At(0).Type()) == "ActorDef" {
 				for h := range core.Reachable(p, g) {
 					core.Instrs(h, func(i2 ssa.Instruction) {
 						if _, isGo := i2.(*ssa.Go); isGo {
@@ -261,7 +261,8 @@ func c12spawn(p *core.Prog, sp *ssa.Function) (bool, string) {
 	// registration stores
 	var parentStore *ssa.Store
 	var childInsert *ssa.MapUpdate
-	core.Instrs(sp, func(ins ssa.Instruction) {
+	// in Spawn itself or in a helper extracted from it (its parameters are then read as the arguments)
+	core.InstrsGroup(p, sp, func(_ *ssa.Function, ins ssa.Instruction) {
 		switch x := ins.(type) {
 		case *ssa.Store:
 			if core.FieldKey(x.Addr) == "ActorDef.parent" {
@@ -276,19 +277,33 @@ func c12spawn(p *core.Prog, sp *ssa.Function) (bool, string) {
 	if parentStore == nil || childInsert == nil {
 		return false, "Spawn does not record parent and children"
 	}
-	if fa := parentStore.Addr.(*ssa.FieldAddr); core.Resolve(fa.X) != ssa.Value(child) || parentStore.Val != ssa.Value(recv) {
+	if fa := parentStore.Addr.(*ssa.FieldAddr); core.ResolveIP(p, fa.X) != ssa.Value(child) || core.ResolveIP(p, parentStore.Val) != ssa.Value(recv) {
 		return false, "parent link is not child.parent = receiver"
 	}
-	if core.FieldBase(childInsert.Map) != recv.Name() || core.Resolve(childInsert.Value) != ssa.Value(child) {
+	mapBase := ssa.Value(nil)
+	if ld, isLd := core.Unwrap(childInsert.Map).(*ssa.UnOp); isLd {
+		if fa, isFA := ld.X.(*ssa.FieldAddr); isFA {
+			mapBase = core.ResolveIP(p, fa.X)
+		}
+	}
+	if mapBase != ssa.Value(recv) || core.ResolveIP(p, childInsert.Value) != ssa.Value(child) {
 		return false, "children map insertion is not receiver.children[...] = child"
 	}
-	if core.FieldKey(childInsert.Key) != "ActorDef.id" || core.Resolve(childInsert.Key.(*ssa.UnOp).X.(*ssa.FieldAddr).X) != ssa.Value(child) {
+	keyLd, isKL := childInsert.Key.(*ssa.UnOp)
+	if !isKL || core.FieldKey(childInsert.Key) != "ActorDef.id" {
 		return false, "child is not registered under its own id"
 	}
-	// both on the not-closed edge
+	if kfa, isFA := keyLd.X.(*ssa.FieldAddr); !isFA || core.ResolveIP(p, kfa.X) != ssa.Value(child) {
+		return false, "child is not registered under its own id"
+	}
+	// both on the not-closed edge (at the store or at the call that leads to it)
 	for _, ins := range []ssa.Instruction{parentStore, childInsert} {
 		open := false
-		for _, cnd := range core.EdgeFacts(ins.Block()) {
+		var facts []core.Cond
+		for _, at := range core.SiteChain(p, sp, ins) {
+			facts = append(facts, core.EdgeFacts(at.Block())...)
+		}
+		for _, cnd := range facts {
 			n := core.Normalize(cnd)
 			if !n.True && flagRead(p, n.V, recv.Name(), "isClosed", 0) {
 				open = true
